@@ -37,6 +37,11 @@ def gen_cases(tier, seed):
         yield {"kind": "big", "size": 33 * (1 << 20), "byte": 0xFF}   # > 2 * 2^32
     for i in range(nm):
         yield {"kind": "mix", "seed": "%d:%d" % (seed, i), "impl": ("sync", "async")[i % 2]}
+    # OPEN payloads of every size around the powers of two (and a few others), WRTE payloads likewise via exact-size pushes
+    for impl in ("sync", "async"):
+        yield {"kind": "sizes", "impl": impl, "seed": "%d:sz" % seed, "centres": [24, 64, 256, 512, 1024, 2048, 4096, 8192, 16384] + ([32768, 65536] if tier == "thorough" else [])}
+    for i in range(40 if tier == "quick" else 400):
+        yield {"kind": "auth", "impl": ("sync", "async")[i % 2], "seed": "%d:au%d" % (seed, i)}
     # (iii) header and payload are two transport writes: only concurrent senders can tear a message apart
     for i in range(300 if tier == "quick" else 6000):
         yield {"kind": "threads", "seed": "%d:t%d" % (seed, i), "impl": "async" if i % 4 == 0 else "sync"}
@@ -135,6 +140,70 @@ def run_case(case):
         stats["sum_exceeds_2_32"] = int(case["byte"] * case["size"] >= (1 << 32))
         return {"sig": "big|%d|%d" % (case["size"], case["byte"]), "violations": viol[:5], "stats": stats,
                 "sample": {"kind": "big", "size": case["size"], "byte": case["byte"], "raw_sum": case["byte"] * case["size"]}, "evaluations": 2}
+    if case["kind"] == "sizes":
+        from vlib import session as session_mod, simdev
+        sim = simdev.SimDevice(maxdata=1 << 20, remote_ids="random")
+        sess = session_mod.Session(case["impl"], sim=sim)
+        try:
+            assert sess.call("connect").ok
+            n = 0
+            for c in case["centres"]:
+                for size in range(c - 3, c + 4):
+                    cmdlen = size - 7            # b"shell:" + cmd + NUL
+                    if cmdlen < 1:
+                        continue
+                    cmd = "q" * cmdlen
+                    sim.scripts[b"shell:" + cmd.encode()] = [b"k"]
+                    o = sess.call("shell", cmd, decode=False)
+                    n += 1
+                    if not o.ok or o.value != b"k":
+                        viol.append({"mechanism": "sizes-session", "detail": "shell with an OPEN payload of %d bytes: %s" % (size, o.brief(100))})
+                        break
+                if viol:
+                    break
+            for v in sess.monitor.of("C02"):
+                viol.append({"mechanism": v.rule, "detail": v.detail})
+            if sess.sim.parser.pending() and not viol:
+                viol.append({"mechanism": "trailing-bytes", "detail": "%d bytes written after the last complete message" % sess.sim.parser.pending()})
+            stats["messages_parsed"] += len(sim.host_log)
+            stats["stream_messages"] += len(sim.host_log)
+            stats["bytes_parsed"] += len(sess.core.written)
+            stats["payload_sizes_swept"] = n
+            return {"sig": ["sizes|%s|%d" % (case["impl"], c) for c in case["centres"]], "violations": viol[:3], "stats": stats,
+                    "sample": {"kind": "sizes", "centres": case["centres"], "commands": n}, "evaluations": n}
+        finally:
+            sess.dispose()
+    if case["kind"] == "auth":
+        from vlib import session as session_mod, simdev
+        rng = gen.rng_for("C02a", case["seed"])
+        nkeys = rng.randint(1, 4)
+        accept = rng.choice([None] + list(range(nkeys)))
+
+        class K(object):
+            def __init__(self, i):
+                self.i = i
+
+            def Sign(self, token):
+                return bytes([self.i]) * rng.choice([1, 20, 256]) + bytes(token)
+
+            def GetPublicKey(self):
+                return b"KEY%d u@h" % self.i
+        keys = [K(i + 1) for i in range(nkeys)]
+        sim = simdev.SimDevice(rng=gen.rng_for("C02asim", case["seed"]), maxdata=4096)
+        sim.auth = simdev.AuthPlan(require=True, verify=lambda tok, sig: accept is not None and sig[:1] == bytes([accept + 1]), accept_pubkey=True)
+        sess = session_mod.Session(case["impl"], sim=sim)
+        try:
+            o = sess.call("connect", rsa_keys=keys, auth_timeout_s=1.0)
+            for v in sess.monitor.of("C02"):
+                viol.append({"mechanism": v.rule, "detail": "handshake with %d keys (accepted: %s): %s" % (nkeys, accept, v.detail)})
+            if not viol and not (o.ok and o.value is True):
+                viol.append({"mechanism": "auth-session", "detail": "connect with %d keys (accepted: %s) -> %s" % (nkeys, accept, o.brief(100))})
+            stats["messages_parsed"] += len(sim.host_log)
+            stats["stream_messages"] += len(sim.host_log)
+            stats["auth_handshakes"] = 1
+            return {"sig": "auth|%s|%d|%s" % (case["impl"], nkeys, accept), "violations": viol[:3], "stats": stats, "sample": None}
+        finally:
+            sess.dispose()
     if case["kind"] == "huge":
         import io
         from vlib import session as session_mod, simdev
@@ -189,7 +258,7 @@ def run_case(case):
                 "sample": {"kind": "threads", "actors": [[s_["op"] for s_ in a] for a in steps], "switches": res["switches"], "host_packets": res.get("host_packets")} if case["seed"].endswith("t3") else None}
     # mix
     rng = gen.rng_for("C02m", case["seed"])
-    sc = scen.gen_scenario(rng, big=rng.random() < 0.1)
+    sc = scen.gen_scenario(rng, big=rng.random() < 0.1, long_cmds=True)
     kw = {}
     capname = None
     if rng.random() < 0.3:
